@@ -25,6 +25,10 @@ type GenOpts struct {
 }
 
 func oldTime(r *RNG) int64 {
+	if r.Chance(1, 12) {
+		// the epoch itself, one nanosecond after it, before 1970: values an encoding may treat specially
+		return []int64{0, 1, -315619200_000_000_000, -1, 999_999_999}[r.Intn(5)]
+	}
 	t := oldBase + int64(r.Intn(300_000_000))*1_000_000_000
 	if r.Chance(1, 3) {
 		t += int64(r.Intn(1_000_000_000)) // ns precision
